@@ -24,5 +24,13 @@ for c in man["checks"]:
     pid = c["property_id"]
     if not os.path.exists(os.path.join(V, "coq", "Props", pid + ".v")):
         print("missing Props file for", pid); ok = False
+# every property module and its implementation-side module must import (a removed helper that another
+# property imported would otherwise only show when that property's check runs)
+for c in man["checks"]:
+    pid = c["property_id"].lower()
+    r = subprocess.run([sys.executable, "-c", "import sys; sys.path.insert(0, %r); import props.%s" % (V, pid)],
+                       capture_output=True, text=True)
+    if r.returncode != 0:
+        print("props/%s.py does not import:" % pid, r.stderr.strip().splitlines()[-1] if r.stderr.strip() else "?"); ok = False
 print("selfcheck", "ok" if ok else "FAILED", "-", len(known), "known findings,", len(man["checks"]), "claimed")
 sys.exit(0 if ok else 1)
